@@ -129,6 +129,7 @@ class C06(CaseCheck):
         cases = [self.finish_case(rng, p) for p in protos]
         m = 3 if tier == "quick" else 60
         cases += [self.malformed_case(rng, i) for i in range(m)]
+        cases += [self.deposit_case(rng, i) for i in range(4 if tier == "quick" else 80)]
         return cases
 
     def measure(self, txlines):
@@ -241,6 +242,32 @@ class C06(CaseCheck):
         for _ in range(rng.randint(6, 16)):
             body.insert(rng.randint(0, len(body)), rng.choice(junk))
         return l + body
+
+    def deposit_case(self, rng, idx):
+        """monitor-only family (no model: the ledger instance of the model has no bridge deposits): blocks whose
+        rollup-data commitments cover rollups that receive ONLY a bridge deposit next to rollups with sequenced
+        data, with the deposit-only rollup id sorting before / after / between the others.  The honest proposal
+        must be accepted by the validator and finalized by the proposer."""
+        ids = [self.fresh() for _ in range(12)]
+        low, mid, high = rng.sample([1, 2, 3, 5, 8, 13, 21, 34, 55, 89, 144, 200], 3)
+        low, mid, high = sorted((low, mid, high))
+        dep_rollup = rng.choice([low, mid, high])
+        seq_rollups = [r for r in (low, mid, high) if r != dep_rollup]
+        l = ["case malformed-deposits-%d" % idx, "genesis", "advance 4",
+             "tx %s a1 0 initbridge rollup=r%d asset=s0 fee=s0 sudo=a1 withdrawer=a1" % (ids[0], dep_rollup),
+             "block %s" % ids[0]]
+        txs = ["tx %s a2 0 lock to=a1 amt=%d asset=s0 fee=s0 dest=rollupaddr" % (ids[1], rng.randint(1, 1000))]
+        n = 0
+        for k, r in enumerate(seq_rollups):
+            if rng.random() < 0.85:
+                txs.append("tx %s a%d 0 rollup id=r%d len=%d fee=s0" % (ids[2 + k], 3 + k, r, rng.randint(1, 60)))
+        if rng.random() < 0.4:
+            txs.append("tx %s a5 0 rollup id=r%d len=7 fee=s0" % (ids[6], dep_rollup))   # deposit AND data for one rollup
+        rng.shuffle(txs)
+        l += txs
+        l += ["ins " + " ".join(t.split()[1] for t in txs), "prepare max=100000", "process", "finalize",
+              "prepare max=100000", "process", "finalize"]
+        return l
 
     # ------------------------------------------------------------------ execution
     def impl(self, cases):
